@@ -294,8 +294,15 @@ def judge(w):
         done_steps = [e[0] for e in log if e[2] == 'pp.done' and e[3]['tid'] == tid]
         put = [e[0] for e in log if e[2] == 'pp.job_put' and e[3]['tid'] == tid]
         comp = [e[0] for e in log if e[2] == 'pp.job_complete' and e[3]['tid'] == tid]
-        if len(done_steps) > 1:
-            out.append(('C19:done-notified-twice', f'download {i}'))
+        # (a second done notification is the mechanism's business; what the property excludes is
+        #  its consequence: a download that nothing went wrong with and nobody cancelled reports failure)
+        oc_i = w.outcomes.get(i)
+        nothing_wrong = not w.client.injected and not w.osutil.injected and not any(
+            e[2] in ('inject', 'user.kbd') for e in log)
+        if nothing_wrong and oc_i and oc_i[0] != 'ok':
+            out.append(('C19:failed-without-fault',
+                        f'download {i}: no job, file-system or client fault was injected and nothing was cancelled, yet result() raised '
+                        f'{oc_i[1]!r} (done notified {len(done_steps)} time(s))'))
         if done_steps:
             d0 = done_steps[0]
             n_put_total = len(put)
